@@ -77,8 +77,8 @@ structure DState where
 def ssCfg : Sg.SSCfg where
   mapOf := fun c => if c ≤ 2 then 0 else if c = 3 then 1 else 2
   keyOf := fun m a =>
-    if m = 2 then [0, 1, 1, 1, 1, 1, 2, 2, 2, 1].getD a 9      -- len(args) + len(kwargs)
-    else [0, 1, 1, 1, 2, 3, 4, 4, 5, 6].getD a 9               -- ==-class of (args, json(kwargs))
+    if m = 2 then [0, 1, 1, 1, 1, 1, 2, 2, 2, 1, 1].getD a 9      -- len(args) + len(kwargs)
+    else [0, 1, 1, 1, 2, 3, 4, 4, 5, 6, 7].getD a 9               -- ==-class of (args, json(kwargs))
 
 def showOptV : Option VId → String
   | none => "-"
@@ -357,7 +357,8 @@ def step (st : DState) (line : String) : DState × String :=
     match parseId 'C' c, parseId 'A' a with
     | some c, some a =>
       -- argument tuple 9 makes `__init__` raise
-      let (ts, r) := st.ts.step (if a == 9 then .constructFail c a else .construct c a)
+      -- … and argument tuple 10 makes `__init__` call `clear_true_singleton()`
+      let (ts, r) := st.ts.step (if a == 9 then .constructFail c a else if a == 10 then .constructClearing c a else .construct c a)
       ({ st with ts := ts }, match r with | some i => s!"ok T{i}" | none => "err ValueError")
     | _, _ => bad
   | ["tsclear", c] =>
@@ -366,8 +367,9 @@ def step (st : DState) (line : String) : DState × String :=
       | some c => ({ st with ts := (st.ts.step (.clear (some c))).1 }, "ok")
       | none => bad
   | ["tsobs"] =>
-    (st, "ts inst=" ++ showList (fun (p : Nat × Nat) => s!"{p.1}:{p.2}") st.ts.inst ++ " inits=" ++
-      showList (fun (p : Nat × Nat × Nat) => s!"{p.1}:{p.2.1}:{p.2.2}") st.ts.inits)
+    -- what a user can observe without constructing: the log of `__init__` runs of his own classes
+    -- (the instance table itself is private; scripts end with probing constructions instead)
+    (st, "ts inits=" ++ showList (fun (p : Nat × Nat × Nat) => s!"{p.1}:{p.2.1}:{p.2.2}") st.ts.inits)
   | [op, x, a] =>
     if op == "ssnew" || op == "ssdrop" || op == "sscheck" || op == "ssadd" then
       match (if op == "ssadd" then parseId 'S' x else parseId 'C' x), parseId 'A' a with
@@ -394,8 +396,16 @@ def step (st : DState) (line : String) : DState × String :=
     | some c => ({ st with ss := (st.ss.step ssCfg (.clear c)).1 }, "ok")
     | none => bad
   | ["ssobs"] =>
-    (st, "ss " ++ " ".intercalate ((List.range 3).map fun m =>
-        s!"m{m}=" ++ showList (fun (p : Sg.SKey × Nat) => s!"{p.1.1}/{p.1.2}:{p.2}") (st.ss.maps m)) ++
+    -- observed through the PUBLIC functions only: get_all per class (as a sorted list) and
+    -- check_semi_singleton_entry_exists per (class, argument tuple)
+    let alls := (List.range 6).map fun c => match (st.ss.step ssCfg (.getAll c)).2 with
+      | .insts l => s!"{c}:" ++ "+".intercalate ((l.mergeSort (· ≤ ·)).map toString)
+      | _ => s!"{c}:?"
+    let chks := (List.range 6).flatMap fun c => (List.range 11).filterMap fun a =>
+      match (st.ss.step ssCfg (.check c a)).2 with
+      | .inst i => some s!"{c}/{a}:{i}"
+      | _ => none
+    (st, "ss all=" ++ showList id alls ++ " chk=" ++ showList id chks ++
       " cls=" ++ showList (fun i => toString (st.ss.instCls i)) (List.range st.ss.next) ++
       " inits=" ++ showList (fun (p : Nat × Nat × Nat) => s!"{p.1}:{p.2.1}:{p.2.2}") st.ss.inits)
   | ["obs"] => (st, obs w)
